@@ -202,6 +202,45 @@ def check(ctx):
         ctx.ob("SIB-19", rp, f"source element {sorted(src_idx)} of {norm(xo[0].value) if xo else '?'}", stores[0], bool(ok),
                "the element replaced is the one at the written position" if ok else
                "the source element and the written position use indices of different index spaces", nontrivial=False)
+    # from_string narrows its result to dates only when EVERY time-of-day component of every parsed value is zero:
+    # otherwise to_string -> from_string does not give the datetimes back
+    fs = repo.fn("dataiter.dt.from_string")
+    dtm = repo.modules["dataiter.dt"]
+    tod = []
+    for name, g in sorted(dtm.functions.items()):
+        lam = [n for n in ast.walk(g.node) if isinstance(n, ast.Lambda)]
+        if lam and isinstance(lam[0].body, ast.Attribute) and lam[0].body.attr in ("hour", "minute", "second", "microsecond") \
+                and any(isinstance(c, ast.Call) and norm(c.func) == "_pull_int" for c in ast.walk(g.node)):
+            tod.append(g.name)
+    ctx.count("time-of-day extractors in dataiter.dt", len(tod), 4)
+    from ..pattern import pmatch as _pm19
+    narrows = [n for n in body_nodes(fs.node) if isinstance(n, (ast.Assign, ast.Return)) and isinstance(n.value, ast.Call)
+               and isinstance(n.value.func, ast.Attribute) and n.value.func.attr == "as_date"]
+    from ..dataflow import defs_reaching as _dr19
+    for n in narrows:
+        zero = set()
+        for k, t in facts_at(fs, n):
+            if k != "T":
+                continue
+            try:
+                e = ast.parse(t, mode="eval").body
+            except SyntaxError:
+                continue
+            b = _pm19("(_E(_A) == 0).all()", e) or _pm19("np.all(_E(_A) == 0)", e) or _pm19("not (_E(_A) != 0).any()", e)
+            if b is None or not isinstance(b["_E"], ast.Name):
+                continue
+            # the argument is the non-missing part of the parsed values, directly or through a local name
+            args = [b["_A"]]
+            if isinstance(b["_A"], ast.Name):
+                args = [d.value for d in _dr19(fs, b["_A"].id, n) if d.value is not None]
+            if args and all(_pm19("_O[~_NA]", a) is not None for a in args):
+                zero.add(b["_E"].id)
+        miss = sorted(set(tod) - zero)
+        ctx.ob("SIB-19", fs, f"{norm(n)} only when {sorted(zero)} are all zero", n, not miss,
+               "a value is narrowed to a date only when it has no time of day at all" if not miss else
+               f"from_string narrows to dates without checking {miss}: values such as 00:00:00.5 (only {miss} non-zero) lose their time "
+               f"of day, so from_string(to_string(x, f), f) != x", clause="from_string inverts to_string for unambiguous formats")
+    ctx.count("date-narrowing sites in from_string", len(narrows), 1)
     # --------------------------------------------------------------- SIB-19
     pulls = [repo.fn(f"dataiter.dt.{n}") for n in ("_pull_datetime", "_pull_int", "_pull_str")]
     for f in pulls + [repo.fn("dataiter.dt.from_string")]:
